@@ -86,6 +86,7 @@ type Txn struct {
 	updates []*commit.Buffer // The update buffers
 	columns []columnCache    // The column mapping
 	logger  commit.Logger    // The optional commit logger
+	inserts []uint32         // The offsets reserved by inserts, released on rollback
 	reader  *commit.Reader   // The commit reader to re-use
 }
 
@@ -104,6 +105,7 @@ func (txn *Txn) reset() {
 	txn.reader.Rewind()
 	txn.columns = txn.columns[:0]
 	txn.updates = txn.updates[:0]
+	txn.inserts = txn.inserts[:0]
 }
 
 // bufferFor loads or creates a buffer for a given column.
@@ -374,6 +376,7 @@ func (txn *Txn) insert(fn func(Row) error, expireAt int64) (uint32, error) {
 		return idx, err
 	}
 
+	txn.inserts = append(txn.inserts, idx)
 	return idx, nil
 }
 
@@ -501,6 +504,9 @@ func (txn *Txn) DeleteKey(key string) error {
 // a transaction in order to perform partial rollbacks.
 func (txn *Txn) rollback() {
 	txn.owner.lock.Lock()
+	for _, idx := range txn.inserts {
+		txn.owner.fill.Remove(idx) // release the offsets reserved by this transaction
+	}
 	atomic.StoreUint64(&txn.owner.count, uint64(txn.owner.fill.Count()))
 	txn.owner.lock.Unlock()
 
